@@ -159,7 +159,9 @@ func buildAtomicIndex(P *Program) *atomicIndex {
 								a.plain = append(a.plain, plainAccess{fn: f, ins: x, kind: "write", live: live[f]})
 							}
 						case *ssa.UnOp:
-							if x.X == g {
+							// `for i := range arr` over a package-level array loads it only for its (constant) length,
+							// or not at all as far as the value is concerned: not a read of the elements
+							if x.X == g && !onlyLenOfArray(x) {
 								a.plain = append(a.plain, plainAccess{fn: f, ins: x, kind: "read", live: live[f]})
 							}
 						}
@@ -322,6 +324,9 @@ func onlyLenOfArray(ld *ssa.UnOp) bool {
 		return false
 	}
 	for _, r := range refsOf(ld) {
+		if _, dbg := r.(*ssa.DebugRef); dbg {
+			continue
+		}
 		call, ok := r.(*ssa.Call)
 		if !ok {
 			return false
